@@ -40,6 +40,16 @@ CHECKS = {
         text="Target endpoint sets are reached through 3..6 different Refresh/Add/Remove histories on separate real selector instances; all instances must agree on every probed code (every ring point and its +-1 neighbours, 0, 2^32-1, random) and with an independently computed Ketama/default ring where that is unambiguous; removing/adding an endpoint may move only its own codes; mod-hash must map h to slot h mod N of the installed list and, weighted, to a cycle with the formula's counts and period identical across histories. Sets around hosts with colliding virtual points (birthday search in a fixed 3000-host universe) are probed and reported per colliding pair.",
         note="The 2^32 code space is sampled at the points where the mapping can change. End-to-end routing of a call carrying a hash code is added with the RPC world (see DESIGN.md). 12 colliding host pairs are recorded as open known findings.",
         design="DESIGN.md §4 C14"),
+    "C03": dict(
+        technique="runtime monitor: independent schema-directed reference decoder + canonical-form checker over encodings produced by the real generated code for every struct type in the tree",
+        text="Every tars2go-generated struct type found in the working tree (framework bindings + an IDL corpus compiled at check time by the tree's own tars2go; registry rebuilt by scanning the tree) is driven by reflection: values from five generation modes are encoded by the generated code, decoded by it into a fresh struct, decoded by the reference decoder, and the bytes are checked for canonical form (schema tags only, ascending, admissible wire type, required present, narrowest integers); WriteTo/ReadFrom and WriteBlock/ReadBlock at six tags; struct tags cross-checked with the .tars declarations.",
+        note="Trusts harness/refcodec and the own .tars reader. Value space sampled. Constructs tars2go cannot compile belong to C16.",
+        design="DESIGN.md §4 C03"),
+    "C04": dict(
+        technique="runtime monitor: differential decoding (with vs. without spliced unknown fields) of reference encodings by the real generated decoders, reader-offset/sentinel probe, default/reuse/required oracles",
+        text="Reference encodings of values of every struct type are re-encoded with well-formed unknown fields (25 kinds: every wire type, nesting 6, mixed-width lists, head-like simple-list content, extended tags) at every position tag order allows incl. nested structs, list elements and map values; the generated decoder must succeed with the identical value and ReadBlock must end exactly behind the StructEnd; dropped optional members must decode to the IDL default in fresh and reused targets; each dropped required member must be an error; EvoOld/EvoNew are decoded across versions.",
+        note="Encodings come from the reference encoder. Quick tier samples 4 extra kinds per insertion point, thorough all 25.",
+        design="DESIGN.md §4 C04"),
 }
 
 NOT_BUILT_REASON = "check not built yet in this session (runtime-monitoring design exists in DESIGN.md §4; machinery in progress) — not claimed until its monitor runs silent on the unchanged tree"
